@@ -149,6 +149,60 @@ def run(ctx):
                    ok, loc=loc(bi, y2.node), detail=det, path=p.describe() if not ok else None)
     if n_checked == 0:
         raise AnalysisError('no change of the delay between two yields found in backoff_iter')
+    # T7.jitter: polynomial normal form of every value yielded with jitter on: it is  b - b*jitter*r  for the un-jittered
+    # delay b and one draw r in [0, 1) -- which lies between b and b*(1-jitter) for either sign of jitter.  (b + b*jitter*r,
+    # a second draw, or a term without b would leave that interval.)
+    def poly(e):
+        if isinstance(e, ast.Constant) and isinstance(e.value, (int, float)) and not isinstance(e.value, bool):
+            return {(): e.value} if e.value else {}
+        if isinstance(e, ast.UnaryOp) and isinstance(e.op, ast.USub):
+            return {k: -v for k, v in poly(e.operand).items()}
+        if isinstance(e, ast.BinOp) and isinstance(e.op, (ast.Add, ast.Sub)):
+            a, b = poly(e.left), poly(e.right)
+            sign = 1 if isinstance(e.op, ast.Add) else -1
+            out = dict(a)
+            for k, v in b.items():
+                out[k] = out.get(k, 0) + sign * v
+            return {k: v for k, v in out.items() if v}
+        if isinstance(e, ast.BinOp) and isinstance(e.op, ast.Mult):
+            a, b = poly(e.left), poly(e.right)
+            out = {}
+            for k1, v1 in a.items():
+                for k2, v2 in b.items():
+                    k = tuple(sorted(k1 + k2))
+                    out[k] = out.get(k, 0) + v1 * v2
+            return {k: v for k, v in out.items() if v}
+        if isinstance(e, ast.Call) and call_name(e) == 'float' and len(e.args) == 1:
+            return poly(e.args[0])
+        if isinstance(e, ast.Call) and call_name(e) in ('random.random', 'random') and not e.args:
+            return {('<r>',): 1}
+        return {(txt(e),): 1}
+    n_j = 0
+    seen_j = set()
+    for p in paths:
+        ts_all = tests_on(w, p)
+        jt = [truth for t, truth, o in ts_all if t in ('jitter', 'float(jitter)')]
+        if not jt or not all(jt):
+            continue
+        for y in [o for o in p.ops if o.kind == 'yield']:
+            e = w.expand(y.val, literals=True)
+            pl = poly(e)
+            if not any('jitter' in k for k in pl):
+                continue            # a value yielded before jitter is applied
+            n_j += 1
+            p0 = {k: v for k, v in pl.items() if 'jitter' not in k and '<r>' not in k}
+            want = dict(p0)
+            for k, v in p0.items():
+                want[tuple(sorted(k + ('jitter', '<r>')))] = -v
+            ok = bool(p0) and pl == want
+            if (y.line, ok) in seen_j:
+                continue
+            seen_j.add((y.line, ok))
+            ctx.ob('T7.jitter', bi.fq, 'a jittered value is b - b*jitter*r for the un-jittered delay b and one random draw r (so it lies '
+                   'between b and b*(1-jitter) for either sign of jitter)', ok, loc=loc(bi, y.node),
+                   detail='normal form %s' % sorted((list(k), v) for k, v in pl.items()), path=p.describe() if not ok else None)
+    if n_j == 0:
+        ctx.unknown('T7.jitter', bi.fq, 'no yielded value depending on jitter found on the jitter paths', bi.loc)
     for p in paths:
         fy = next((o for o in p.ops if o.kind == 'yield'), None)
         if fy is not None:
